@@ -15,7 +15,9 @@ def key(rec):
 
 
 def corrupt(rs):
-    idx = [i for i, r in enumerate(rs) if r["op"] == "intersection" and r["pan"] == 0]
+    # a NON-EMPTY intersection (an empty one is any invalid box: moving a corner of it proves nothing)
+    idx = [i for i, r in enumerate(rs) if r["op"] == "intersection" and r["pan"] == 0
+           and all(a <= b for a, b in zip(r["obs"]["min"], r["obs"]["max"]))]
     i = idx[len(idx) // 2]
     rs[i]["obs"]["max"][0] += 2
     return i
